@@ -182,6 +182,9 @@ let () =
                    (match String.split_on_char ':' t with
                     | [_; n; cnt] -> xfiles := (str_of_string (unhex n), str_of_string (unhex cnt)) :: !xfiles
                     | _ -> raise (Unsupported "xfile token"))
+                 else if starts "xdir:" t then
+                   (* a directory opens like a file and delivers no line *)
+                   xfiles := (str_of_string (unhex (after "xdir:" t)), []) :: !xfiles
                  else if starts "S:" t then raise (Unsupported "sub-group")
                  else if starts "order:" t then ()   (* definition order across members: no influence on the model *)
                  else if t = "out:usage" then raise (Unsupported "usage")) toks;
